@@ -105,6 +105,26 @@ let run toks =
       "ok " ^ bool_s (tk = code c || (c <> maxc && tk = code (N.add c (n_of_int 1))) || (c <> N0 && tk = code (N.sub c (n_of_int 1))))
   | ["totpvalidnow"; t; tok; k; p; d; now; err; _step] ->
       res_b (is_totp_token_valid_now (hash_of t) (zd tok) (bx k) (zd p) (zd d) (zd now, err <> "0"))
+  | ["pbkdf2"; t; p; s; c; dk] -> res_bytes (pbkdf2_vec (hash_of t) (bx p) (bx s) (nd c) (nat_of_int (int_of_string dk)))
+  | ["spec.pbkdf2"; t; p; s; c; dk] -> "ok " ^ hx (pBKDF2_spec (hash_of t) (bx p) (bx s) (nat_of_int (int_of_string c)) (nat_of_int (int_of_string dk)))
+  | ["pbkdf2buf"; t; p; s; c; dk] ->
+      (match pbkdf2_buf (hash_of t) (bx p) (bx s) (nd c) (nat_of_int (int_of_string dk)) with Some d -> "some " ^ hx d | None -> "none")
+  | ["spec.pbkdf2buf"; t; p; s; c; dk] -> "some " ^ hx (pBKDF2_spec (hash_of t) (bx p) (bx s) (nat_of_int (int_of_string c)) (nat_of_int (int_of_string dk)))
+  | ["pepper"; t; p; s; pep; c; dk] -> res_bytes (pbkdf2_with_pepper (hash_of t) (bx p) (bx s) (bx pep) (nd c) (nat_of_int (int_of_string dk)))
+  | ["spec.pepper"; t; p; s; pep; c; dk] ->
+      "ok " ^ hx (pBKDF2_spec (hash_of t) (hMAC_spec (hash_of t) (bx pep) (bx p)) (bx s) (nat_of_int (int_of_string c)) (nat_of_int (int_of_string dk)))
+  | ["hkdfx"; ikm; salt] -> hx (hkdf_extract (bx ikm) (if salt = "null" then None else Some (bx salt)))
+  | ["spec.hkdfx"; ikm; salt] -> hx (hKDF_extract_spec (if salt = "null" then [] else bx salt) (bx ikm))
+  | ["hkdfe"; prk; info; l] -> res_bytes (hkdf_expand (bx prk) (if info = "null" then [] else bx info) (nat_of_int (int_of_string l)))
+  | ["spec.hkdfe"; prk; info; l] -> "ok " ^ hx (hKDF_expand_spec (bx prk) (if info = "null" then [] else bx info) (nat_of_int (int_of_string l)))
+  | ["hkdfkiv"; ikm; salt; ctx] ->
+      (match hkdf_key_iv (bx ikm) (if salt = "null" then None else Some (bx salt)) (bx ctx) with
+       | Ok (k, iv) -> "ok " ^ hx k ^ " " ^ hx iv | Throw e -> exn_s e)
+  | ["spec.hkdfkiv"; ikm; salt; ctx] ->
+      let okm = hKDF_expand_spec (hKDF_extract_spec (if salt = "null" then [] else bx salt) (bx ikm)) (bx ctx) (nat_of_int 44) in
+      let rec take n l = if n = 0 then [] else (match l with [] -> [] | x :: r -> x :: take (n - 1) r) in
+      let rec drop n l = if n = 0 then l else (match l with [] -> [] | _ :: r -> drop (n - 1) r) in
+      "ok " ^ hx (take 32 okm) ^ " " ^ hx (take 12 (drop 32 okm))
   | t :: _ -> failwith ("unknown op " ^ t)
   | [] -> ""
 
